@@ -16,8 +16,8 @@ inductive Accumulation
   deriving Repr, DecidableEq, Inhabited
 
 /-- layers that may appear inside a feedback block (nested blocks are rejected by the Rust code) -/
-inductive Inner (α : Type)
-  | dense (l : Dense α)
+inductive InnerLayer (α : Type)
+  | dense (l : DenseLayer α)
   | conv (l : Conv α)
   | deconv (l : Deconv α)
   | maxpool (l : Maxpool α)
@@ -27,14 +27,14 @@ structure Feedback (α : Type) where
   outputs : Shape
   optimizer : Optimizer α
   flatten : Bool
-  layers : List (Inner α)
+  layers : List (InnerLayer α)
   /-- target position ↦ source positions inside the unrolled block -/
   connect : List (Nat × List Nat)
   accumulation : Accumulation
   coupled : List (List Nat)
 
 inductive Layer (α : Type)
-  | dense (l : Dense α)
+  | dense (l : DenseLayer α)
   | conv (l : Conv α)
   | deconv (l : Deconv α)
   | maxpool (l : Maxpool α)
@@ -54,37 +54,37 @@ def Assoc.insert {β : Type} (m : List (Nat × β)) (k : Nat) (v : β) : List (N
   | [] => [(k, v)]
   | (k', v') :: rest => if k' = k then (k, v) :: rest else (k', v') :: Assoc.insert rest k v
 
-namespace Inner
+namespace InnerLayer
 
-def inputs : Inner α → Shape
+def inputs : InnerLayer α → Shape
   | .dense l => l.inputs | .conv l => l.inputs | .deconv l => l.inputs | .maxpool l => l.inputs
-def outputs : Inner α → Shape
+def outputs : InnerLayer α → Shape
   | .dense l => l.outputs | .conv l => l.outputs | .deconv l => l.outputs | .maxpool l => l.outputs
 
-def setTraining (t : Bool) : Inner α → Inner α
+def setTraining (t : Bool) : InnerLayer α → InnerLayer α
   | .dense l => .dense { l with training := t }
   | .conv l => .conv { l with training := t }
   | .deconv l => .deconv { l with training := t }
   | .maxpool l => .maxpool l
 
-def training : Inner α → Bool
+def training : InnerLayer α → Bool
   | .dense l => l.training | .conv l => l.training | .deconv l => l.training | .maxpool _ => false
 
-def parameters : Inner α → Except Err Nat
+def parameters : InnerLayer α → Except Err Nat
   | .dense l => l.parameters
   | .conv l => .ok l.parameters
   | .deconv l => .ok l.parameters
   | .maxpool _ => .ok 0
 
 /-- forward of one plain layer → `(pre, post, max indices?)` -/
-def forward (l : Inner α) (x : Tensor α) : Except Err (Tensor α × Tensor α × Option MaxIdx) :=
+def forward (l : InnerLayer α) (x : Tensor α) : Except Err (Tensor α × Tensor α × Option MaxIdx) :=
   match l with
   | .dense d => match d.forward x with | .ok (a, b) => .ok (a, b, none) | .error e => .error e
   | .conv d => match d.forward x with | .ok (a, b) => .ok (a, b, none) | .error e => .error e
   | .deconv d => match d.forward x with | .ok (a, b) => .ok (a, b, none) | .error e => .error e
   | .maxpool d => match d.forward x with | .ok (a, b, m) => .ok (a, b, some m) | .error e => .error e
 
-end Inner
+end InnerLayer
 
 /-- accumulate one skip source into `x` (`add_inplace` / `sub_inplace` / `mul_inplace`) -/
 def accumulate1 (acc : Accumulation) (x y : Tensor α) : Except Err (Tensor α) :=
@@ -111,7 +111,7 @@ namespace Feedback
 
 /-- `Feedback::create` (after the repair of D13: an output-skip entry is only registered when it has
     sources, i.e. `loops ≥ 2`) -/
-def create (layers : List (Inner α)) (loops : Nat) (inskips outskips : Bool) (acc : Accumulation) :
+def create (layers : List (InnerLayer α)) (loops : Nat) (inskips outskips : Bool) (acc : Accumulation) :
     Except Err (Feedback α) :=
   if loops = 0 then .error .reject else
   match layers.head?, layers.getLast? with
@@ -129,7 +129,7 @@ def create (layers : List (Inner α)) (loops : Nat) (inskips outskips : Bool) (a
   | _, _ => .error .index
 
 def setTraining (f : Feedback α) (t : Bool) : Feedback α :=
-  { f with layers := f.layers.map (Inner.setTraining t) }
+  { f with layers := f.layers.map (InnerLayer.setTraining t) }
 
 /-- `Feedback::parameters`: the first repetition only -/
 def parameters (f : Feedback α) : Except Err Nat :=
@@ -143,7 +143,7 @@ def parameters (f : Feedback α) : Except Err Nat :=
     the — possibly skip-combined and flattened — block output last) and the max-pool indices -/
 def forwardAll (f : Feedback α) (input : Tensor α) :
     Except Err (List (Tensor α) × List (Tensor α) × List (Option MaxIdx)) :=
-  let step (st : Except Err (List (Tensor α) × List (Tensor α) × List (Option MaxIdx))) (il : Nat × Inner α) :=
+  let step (st : Except Err (List (Tensor α) × List (Tensor α) × List (Option MaxIdx))) (il : Nat × InnerLayer α) :=
     match st with
     | .error e => .error e
     | .ok (un, act, mx) =>
@@ -211,7 +211,7 @@ def backward (f : Feedback α) (gradient : Tensor α) (unactivated activated : L
     Except Err (Tensor α × List (Tensor α) × List (Option (Tensor α))) :=
   let n := f.layers.length
   let inv := invertConnect f.connect
-  let step (st : Except Err (List (Tensor α) × List (Tensor α) × List (Option (Tensor α)))) (il : Nat × Inner α) :=
+  let step (st : Except Err (List (Tensor α) × List (Tensor α) × List (Option (Tensor α)))) (il : Nat × InnerLayer α) :=
     match st with
     | .error e => .error e
     | .ok (grads, wgs, bgs) =>
@@ -275,7 +275,7 @@ def outputs : Layer α → Shape
   | .dense l => l.outputs | .conv l => l.outputs | .deconv l => l.outputs | .maxpool l => l.outputs
   | .feedback l => l.outputs
 
-def ofInner : Inner α → Layer α
+def ofInner : InnerLayer α → Layer α
   | .dense l => .dense l | .conv l => .conv l | .deconv l => .deconv l | .maxpool l => .maxpool l
 
 def parameters : Layer α → Except Err Nat
@@ -298,7 +298,7 @@ def flags : Layer α → List Bool
   | .conv l => [l.training]
   | .deconv l => [l.training]
   | .maxpool _ => []
-  | .feedback l => l.layers.map Inner.training
+  | .feedback l => l.layers.map InnerLayer.training
 
 end Layer
 
@@ -460,11 +460,11 @@ inductive InnerSpec (α : Type)
 def addFeedback (n : Network α) (specs : List (InnerSpec α)) (loops : Nat) (inskips outskips : Bool)
     (acc : Accumulation) : Except Err (Network α) :=
   if specs.isEmpty then .error .reject else
-  let built := specs.foldl (fun (st : Except Err (Shape × List (Inner α))) sp =>
+  let built := specs.foldl (fun (st : Except Err (Shape × List (InnerLayer α))) sp =>
     match st with
     | .error e => .error e
     | .ok (inp, ls) =>
-      let l : Except Err (Inner α) :=
+      let l : Except Err (InnerLayer α) :=
         match sp with
         | .dense o a b d w bt =>
           match inp with
